@@ -256,3 +256,24 @@ func Settle(ctx context.Context, env *Env, watchdog time.Duration, busStores int
 
 // LastSettleState describes the state seen by the last poll of Settle (diagnostics).
 var LastSettleState string
+
+// NewReplicaOpts is NewReplicaAt with a hook to adjust the OrbitDB options (cache,
+// keystore, identity injection) and an explicit peer id.
+func (e *Env) NewReplicaOpts(idx int, label, dir string, pid peer.ID, mutate func(o *orbitdb.NewOrbitDBOptions)) (*Replica, error) {
+	api := e.NewAPI(idx, pid)
+	e.Net.register(idx, pid)
+	opts := &orbitdb.NewOrbitDBOptions{
+		Directory:            &dir,
+		PubSub:               e.Net.PubSub(idx),
+		DirectChannelFactory: e.Net.DirectChannelFactory(idx),
+		PeerID:               pid,
+	}
+	if mutate != nil {
+		mutate(opts)
+	}
+	odb, err := orbitdb.NewOrbitDB(e.Ctx, api, opts)
+	if err != nil {
+		return nil, err
+	}
+	return &Replica{Env: e, Idx: idx, Label: label, PID: pid, API: api, Dir: dir, Orbit: odb}, nil
+}
